@@ -24,6 +24,9 @@ def expected(ref):
     return (ref["outcome"], ref["emits"], ref["out"])
 
 
+FEATURES_ATTEMPTED = set()
+
+
 def gen_corpus(rng, n, prop="C01"):
     progs = []
     discarded = 0
@@ -36,6 +39,7 @@ def gen_corpus(rng, n, prop="C01"):
         except (RecursionError, IndexError, ValueError):
             discarded += 1
             continue
+        FEATURES_ATTEMPTED.update(g.features)
         ref = R.reference(forms, fuel=60000) if static_ok(forms) else None
         if ref is None:
             discarded += 1
@@ -345,6 +349,13 @@ def static_ok(forms):
             ps = x[1] if isinstance(x[1], list) else [x[1]]
             ps = {p for p in ps if isinstance(p, R.Sym)}
             return all(walk(b, bound | ps | internal(x[2:])) for b in x[2:])
+        if h == "case-lambda":
+            ok = True
+            for cl in x[1:]:
+                ps = cl[0] if isinstance(cl[0], list) else [cl[0]]
+                ps = {p for p in ps if isinstance(p, R.Sym)}
+                ok = ok and all(walk(b, bound | ps | internal(cl[1:])) for b in cl[1:])
+            return ok
         if h in ("let", "let*", "letrec", "letrec*") and len(x) > 2:
             if isinstance(x[1], R.Sym):
                 names = {b[0] for b in x[2]} | {x[1]}
@@ -411,6 +422,10 @@ def main(tier, prop="C01"):
         for f in p["features"]:
             feats[f] = feats.get(f, 0) + 1
     rep.note("programs_by_feature", feats)
+    never = sorted(FEATURES_ATTEMPTED - set(feats))
+    if never:
+        # a construct the generator emits but the reference never accepts is not observed at all
+        rep.inconclusive_note("generated features never accepted by the reference: %s" % ", ".join(never), floor=True)
     ref_outcomes = {"ok": 0, "err": 0}
     for p in progs:
         ref_outcomes[p["ref"]["outcome"]] += 1
